@@ -364,10 +364,13 @@ start:
 		return
 	}
 
-	// If v.maxVersion(0) is non-negative, then we loaded API
-	// versions. If the version for this request is negative, we
-	// know the broker cannot handle this request.
-	if v.maxVersion(0) >= 0 && v.maxVersion(req.Key()) < 0 {
+	// If the broker's version table is non-empty, then we loaded API
+	// versions (an ApiVersions response always stores at least one key;
+	// only the pre-0.10.0 path stores an empty table). Produce (key 0)
+	// cannot stand in for "loaded": KRaft controllers do not list it.
+	// If the version for this request is negative, we know the broker
+	// cannot handle this request.
+	if len(v.maxVers) > 0 && v.maxVersion(req.Key()) < 0 {
 		pr.promise(nil, errBrokerTooOld)
 		return
 	}
